@@ -105,12 +105,19 @@ namespace TrRouting
       // scenario:
       else if (parameterWithValue.first == "scenario_id")
       {
-        boost::uuids::uuid scenarioUuid  = uuidGenerator(parameterWithValue.second);
-
-        auto scenarioIte = scenarios.find(scenarioUuid);
-        if (scenarioIte != scenarios.end())
+        try
         {
-          scenario = scenarioIte->second;
+          boost::uuids::uuid scenarioUuid  = uuidGenerator(parameterWithValue.second);
+
+          auto scenarioIte = scenarios.find(scenarioUuid);
+          if (scenarioIte != scenarios.end())
+          {
+            scenario = scenarioIte->second;
+          }
+        }
+        catch (const std::exception &)
+        {
+          // not a uuid at all: no scenario can have this id, handled like any other unknown scenario below
         }
         continue;
       }
